@@ -248,6 +248,11 @@ func main() {
 	f4dir := filepath.Join(lib.Root(), "corpus", "findings", "F04_ondemand_global_reader")
 	sweep("dir:"+f4dir, "corpus-F4", []variant{{"on-demand", optrun.Opts{"summarize-on-demand": "true"}, 0}}, true)
 
+	// regression corpus: the global forms FnReadsFrom recognises today — eager and on-demand must agree
+	sweep("dir:"+filepath.Join(lib.Root(), "corpus", "c05_global_forms"), "corpus-global-forms",
+		[]variant{{"on-demand", optrun.Opts{"summarize-on-demand": "true"}, 0}, {"pkg-filter=nomatch", optrun.Opts{"pkg-filter": q("^zzz$")}, 0},
+			{"on-demand+max-alarms=2", optrun.Opts{"summarize-on-demand": "true", "max-alarms": "2"}, 2}}, false)
+
 	// ---- generated programs
 	nGen, cases := 2, 40
 	tds := []string{"taint/globals"}
